@@ -51,9 +51,10 @@ theorem flagged_calls {s : Simp} (hs : SimpSound s) {o : Oracle} (ho : OracleSou
     (hmem : cfg.maxMem + 32 ≤ p.memLimit) (hdep : 1024 ≤ p.maxDepth)
     (hcodes : ∀ a, w.codeOf a = codeOf codes a)
     (hcb : ∀ a prog, codeOf codes a = some prog → ∀ b ∈ prog, b < 256)
-    (hz : ∀ a, Modelled codes this a → C01.ZeroStorage w a)
+    (hz : ∀ a, Modelled codes this a → C01.ZeroStorage w a) (hnc : cfg.create = false)
     (I : Interp) (hI : I.Std) (hbal : cfg.balances = true → BalHyp I cfg w)
-    (hbound : cfg.balances = true → BalBound w) (f0 : Evm.Frame)
+    (hbound : cfg.balances = true → BalBound w) (hsha : cfg.sha3 = true → ShaInterp I p cfg)
+    (hshaok : ∀ cs, VisitedC s o cfg codes (initC env codes this) cs → ShaOK I s cfg cs) (f0 : Evm.Frame)
     (hR0 : R I env ((codeOf codes this).getD []) p initState f0) (hthis : f0.this = this) (hd0 : f0.depth = 0)
     (n : Nat) (w' : Evm.World) (h : Evm.Halt) (hex : Evm.exec p n w f0 = some (w', h))
     (hb : (runC s o cfg env codes this fuel).boundedLoops = [])
@@ -64,7 +65,7 @@ theorem flagged_calls {s : Simp} (hs : SimpSound s) {o : Oracle} (ho : OracleSou
     ∃ ce ∈ (runC s o cfg env codes this fuel).ends, Sat I ce.e.st.path ∧ ce.e.tag = .normal ∧
       (∃ h0, ce.e.out = .halt h0 ∧ haltWith h0 (ce.e.data.map (·.eval I)) = h) ∧
       WRelM I (Modelled codes this) w w' (stoOf ce.stores) (evalLogs I ce.logs) (balSem I w ce.bal) := by
-  rcases C02.complete_calls hs ho cfg env codes this fuel p w hmem hdep hcodes hcb hz I hI hbal hbound f0 hR0 hthis hd0
+  rcases C02.complete_calls hs ho cfg env codes this fuel p w hmem hdep hcodes hcb hz hnc I hI hbal hbound hsha hshaok f0 hR0 hthis hd0
       n w' h hex
     with ⟨ce, hm, hsat, hc⟩ | hb' | hd' | hf'
   · obtain ⟨hns, htag⟩ := herr ce hm hsat
@@ -238,8 +239,8 @@ example : ∃ e ∈ exRes.ends, Sat exI e.st.path ∧ e.tag = .normal ∧
 
 /-- `concrete_loops_uncut`: `PUSH1 1; PUSH1 4; JUMPI; STOP; JUMPDEST; STOP` at the JUMPI with `--loop 0` -/
 example : (step foldSimp exOracle { loop := 0 } exEnv [0x60, 1, 0x60, 5, 0x57, 0x00, 0x5b, 0x00]
-      ⟨4, [.bv 256 (.con 5), .bv 256 (.con 1)], [], [], [], [], [], [], []⟩).bounded = [] :=
-  (concrete_loops_uncut (cfg := { loop := 0 }) (st := ⟨4, [.bv 256 (.con 5), .bv 256 (.con 1)], [], [], [], [], [], [], []⟩)
+      ⟨4, [.bv 256 (.con 5), .bv 256 (.con 1)], [], [], [], [], [], [], [], [], 0⟩).bounded = [] :=
+  (concrete_loops_uncut (cfg := { loop := 0 }) (st := ⟨4, [.bv 256 (.con 5), .bv 256 (.con 1)], [], [], [], [], [], [], [], [], 0⟩)
     (sz := 256) (target := 5) rfl rfl rfl true (Or.inr ⟨256, 1, rfl, rfl⟩)).1
 
 end HalmosVerif.Props.C10
